@@ -298,6 +298,8 @@ func main() {
 		scenarios = append(scenarios, scenario(fmt.Sprintf("discovery/n=3/times=0.1T,0.5T,T-e/bcast=%d", port), 3, []time.Duration{T / 10, T / 2, T - eps}, port, 2))
 		scenarios = append(scenarios, scenario(fmt.Sprintf("discovery/n=3/times=T-e,0.5T,T+e/bcast=%d", port), 3, []time.Duration{T - eps, T / 2, T + eps}, port, 1))
 		if r.Thorough() {
+			scenarios = append(scenarios, scenario(fmt.Sprintf("discovery/n=3/any-time/bcast=%d", port), 3, nil, port, 1))
+			scenarios = append(scenarios, scenario(fmt.Sprintf("discovery/n=4/times=0.1T,T-e,T,T+e/bcast=%d", port), 4, []time.Duration{T / 10, T - eps, T, T + eps}, port, 1))
 			scenarios = append(scenarios, scenario(fmt.Sprintf("discovery/n=3/same-instant/bcast=%d", port), 3, []time.Duration{T / 2, T / 2, T / 2}, port, 2))
 			scenarios = append(scenarios, scenario(fmt.Sprintf("discovery/n=4/times=0.1T,0.5T,0.5T,T-e/bcast=%d", port), 4, []time.Duration{T / 10, T / 2, T / 2, T - eps}, port, 1))
 		}
@@ -312,7 +314,7 @@ func main() {
 	if r.Worker == "" && r.Replay == "" {
 		vs.Run(nil, nil, vs.Options{}, func() { mappingSweep(r) })
 	}
-	r.Rule("every sequence of 0..2 datagrams over 10 classes (valid A/B, duplicate, 63 bytes, 65 and 1100 bytes with a well-formed 64-byte prefix, wrong protocol id, wrong function code, non-BCD and calendar-invalid date) x 5 arrival times (0.1T, 0.5T, T-e, T, T+e), every 3-datagram class sequence at two fixed time patterns (thorough: also simultaneous arrivals and 4 datagrams), broadcast address unset / port 60005, each under all interleavings of the reader goroutine and the sleeping caller within the preemption bound; plus a driver-level sweep of one reply through the result mapping (every byte value of address/mask/gateway/MAC/version/serial, all 65536 version, year and month-day byte pairs) x {unnamed + default port, named + port 60005}. distinct = distinct (entries, datagrams) labels")
+	r.Rule("every sequence of 0..2 datagrams over 10 classes (valid A/B, duplicate, 63 bytes, 65 and 1100 bytes with a well-formed 64-byte prefix, wrong protocol id, wrong function code, non-BCD and calendar-invalid date) x 5 arrival times (0.1T, 0.5T, T-e, T, T+e), every 3-datagram class sequence at two fixed time patterns (thorough: also every 3-datagram sequence at every arrival-time combination, simultaneous arrivals and 4 datagrams at two time patterns), broadcast address unset / port 60005, each under all interleavings of the reader goroutine and the sleeping caller within the preemption bound; plus a driver-level sweep of one reply through the result mapping (every byte value of address/mask/gateway/MAC/version/serial, all 65536 version, year and month-day byte pairs) x {unnamed + default port, named + port 60005}. distinct = distinct (entries, datagrams) labels")
 	r.Assume("a reply with a calendar-invalid BCD date may be dropped or reported with the zero date (the property lists only non-BCD dates as malformed)")
 	r.Finish()
 }
